@@ -82,6 +82,10 @@ theorem reports_step {s s' : St} {l : Label} (hs : step s l = some s')
       intro hc
       have hc' : s.spc.reports = true := hc
       rw [hw] at hc'; cases hc'
+    | die =>
+      simp only [sStep] at hd
+      split at hd <;> simp at hd; subst hd
+      intro hc; cases hc
 
 theorem reports_exec {s0 s : St} {ls : List Label} (he : Exec s0 ls s)
     (hq : s0.spc.reports = true → s0.batch = false) : s.spc.reports = true → s.batch = false := by
@@ -98,8 +102,9 @@ theorem readingUpTo_ge (ts : List TS) (k : Nat) (hk : ts.length ≤ k) : reading
     rw [← Nat.add_assoc, readingUpTo_succ, if_neg hne, List.append_nil]
     exact ih (by omega)
 
-/-- the steps the signals thread can take on the abort path, one by one: take thd_mutex ... -/
-theorem abort_lock {s s' : St} {a : SAct} (hd : sStep s a = some s') (hw : s.spc = .abLock) :
+/-- the steps the signals thread can take on the abort path — short of giving way to a cancellation request, which
+    dsh() makes only when all work is done — one by one: take thd_mutex ... -/
+theorem abort_lock {s s' : St} {a : SAct} (hnd : a ≠ .die) (hd : sStep s a = some s') (hw : s.spc = .abLock) :
     a = .lockT ∧ s'.spc = .fwding 0 ∧ s'.thd = .s ∧ s'.fwds = s.fwds := by
   cases a with
   | lockT =>
@@ -116,9 +121,11 @@ theorem abort_lock {s s' : St} {a : SAct} (hd : sStep s a = some s') (hw : s.spc
   | unlock => simp [sStep, hw] at hd
   | stop => simp [sStep, hw] at hd
   | exit c => simp [sStep, hw] at hd
+  | die => exact absurd rfl hnd
 
 /-- ... signal the next READING slot, or release thd_mutex when there is none left ... -/
-theorem abort_fwd {s s' : St} {a : SAct} {k : Nat} (ha : AInv s) (hd : sStep s a = some s') (hw : s.spc = .fwding k) :
+theorem abort_fwd {s s' : St} {a : SAct} {k : Nat} (ha : AInv s) (hnd : a ≠ .die) (hd : sStep s a = some s')
+    (hw : s.spc = .fwding k) :
     (∃ h, a = .fwd h ∧ k ≤ h ∧ h < s.ts.length ∧ tsAt s h = .reading ∧ s'.spc = .fwding (h + 1) ∧
         s'.fwds = s.fwds ++ [h]) ∨
     (a = .unlockT ∧ s'.spc = .exiting ∧ s'.thd = .none ∧ s'.fwds = s.fwds ∧
@@ -149,9 +156,10 @@ theorem abort_fwd {s s' : St} {a : SAct} {k : Nat} (ha : AInv s) (hd : sStep s a
   | unlock => simp [sStep, hw] at hd
   | stop => simp [sStep, hw] at hd
   | exit c => simp [sStep, hw] at hd
+  | die => exact absurd rfl hnd
 
 /-- ... and call `exit(1)` -/
-theorem abort_exit {s s' : St} {a : SAct} (hd : sStep s a = some s') (hw : s.spc = .exiting) :
+theorem abort_exit {s s' : St} {a : SAct} (hnd : a ≠ .die) (hd : sStep s a = some s') (hw : s.spc = .exiting) :
     a = .exit 1 ∧ s'.exited = some 1 := by
   cases a with
   | exit c =>
@@ -168,6 +176,7 @@ theorem abort_exit {s s' : St} {a : SAct} (hd : sStep s a = some s') (hw : s.spc
   | unlockT => simp [sStep, hw] at hd
   | unlock => simp [sStep, hw] at hd
   | stop => simp [sStep, hw] at hd
+  | die => exact absurd rfl hnd
 
 /-- on the abort path: abLock, fwding k, exiting -/
 def SPC.aborting : SPC → Bool
@@ -175,20 +184,21 @@ def SPC.aborting : SPC → Bool
   | _ => false
 
 /-- every step of the signals thread on the abort path brings `exit` nearer -/
-theorem abort_rank {s s' : St} {a : SAct} (ha : AInv s) (hd : sStep s a = some s') (hw : s.spc.aborting = true) :
+theorem abort_rank {s s' : St} {a : SAct} (ha : AInv s) (hnd : a ≠ .die) (hd : sStep s a = some s')
+    (hw : s.spc.aborting = true) :
     (arank s' < arank s ∧ s'.spc.aborting = true) ∨ s'.exited = some 1 := by
   have hlen : s'.ts.length = s.ts.length := by
     rcases (s_step_frame hd).2.2.2.2.2.2 with h | ⟨_, h⟩ <;> rw [h]; simp
   cases hsp : s.spc <;> rw [hsp] at hw <;> simp [SPC.aborting] at hw
-  · obtain ⟨_, h1, _, _⟩ := abort_lock hd hsp
+  · obtain ⟨_, h1, _, _⟩ := abort_lock hnd hd hsp
     left; refine ⟨?_, by rw [h1]; rfl⟩
     simp only [arank, h1, hsp, hlen]; omega
   · rename_i k
-    rcases abort_fwd ha hd hsp with ⟨h, _, hk, hlt, _, h1, _⟩ | ⟨_, h1, _, _, _⟩
+    rcases abort_fwd ha hnd hd hsp with ⟨h, _, hk, hlt, _, h1, _⟩ | ⟨_, h1, _, _, _⟩
     · left; refine ⟨?_, by rw [h1]; rfl⟩
       simp only [arank, h1, hsp, hlen]; omega
     · left; refine ⟨?_, by rw [h1]; rfl⟩
       simp only [arank, h1, hsp]; omega
-  · exact Or.inr (abort_exit hd hsp).2
+  · exact Or.inr (abort_exit hnd hd hsp).2
 
 end PdshVerif.Dsh.Sig
